@@ -170,7 +170,7 @@ LEVELS = {
             "Checked every run: model = implementation; the invariant is evaluated on mem, keyvalue over a plain store, mount and Sub after every step over the closure of candidate paths.",
             "Hypothesis of the theorem: no store failure. The composition-level invariant (mount points and view roots exist) is covered by the invariant oracle only (two known findings, signatures restricted to operations covering a mount point / the view root). Writes through handles that outlive their path are C17's known finding."),
     "C04": ("Proved: ValidPath specification; for every operation of the key-value model, the Sub view and the mount FS, an invalid name (either name for Rename) leaves the whole state unchanged and fails with ErrInvalid naming the caller's path; valid names are never refused as invalid. "
-            "Checked every run: model = implementation on 1.5k cases; 8k name x operation x layer cases (incl. os, cache, tar) against the gate's expected behaviour.",
+            "Checked every run: model = implementation on 1.5k cases; 9k name x operation x layer cases (incl. os, cold and warm cache, a finished, a failed and a cancelled tar FS) against the gate's expected behaviour.",
             "os, cache and tar layers are oracle-only."),
     "C05": ("Proved: in every state (store failures included) each failure of Stat, Mkdir, Remove, Chmod, Chtimes and OpenFile of the key-value model is a PathError naming exactly the caller's path, also through a generic Sub view and a mount FS (the added prefix is exactly the stripped one); on well-formed fault-free states the sentinel for each situation (invalid, exists, missing, below a file, not empty, root); Rename with an invalid name gives a LinkError with both names. "
             "Checked every run: full error values model = implementation (mem); type, path and sentinel implementation = os on mem, Sub(mem, a/ab), a mount FS and os.FS under two Sub roots.",
@@ -211,14 +211,14 @@ LEVELS = {
     "C17": ("Proved: every operation on a closed handle fails with ErrClosed and changes nothing; handles are independent; close then closed. "
             "Checked every run: histories mixing namespace changes with open handles: model = implementation, implementation = os.File.",
             "Refuted (known finding): a write/truncate/chmod through a handle whose path was removed or replaced resurrects or clobbers the name."),
-    "C18": ("Proved over the transaction model: one result per call in call order; Get sees the store and earlier Sets of the transaction; a handler's error becomes the operation's error; nothing after Abort has an effect; the in-memory store's mutex is released exactly once; the serial fallback leaves the store usable. "
+    "C18": ("Proved over the transaction model: one result per call in call order; Get sees the store and earlier Sets of the transaction; a handler's error becomes the operation's error; nothing after Abort has an effect; the in-memory store's mutex is released exactly once by whatever call ends the transaction, including a Commit whose context is already cancelled; the serial fallback refuses such a Commit, holds nothing and leaves the store usable. "
             "Checked every run: 3000 transaction scripts model = implementation (mem store through the build-tagged constructor, and the serial fallback).",
             ""),
     "C19": ("Proved: blob.Bytes operations never panic or self-deadlock; reachable blobs are well-formed; out-of-range arguments give an error and change nothing, in-range are accepted; Len/Bytes/View/Slice/Set/Grow/Truncate are the list operations; views write through. "
             "Checked every run: 1500 operation sequences over view trees model = implementation.",
             "idbblob (js/wasm) is not built or exercised in this sandbox."),
     "C20": ("Proved over the model of fstest's tree comparison: with the default mask mode bits are invisible and extra entries are accepted (the known findings as theorems); a kept mode bit is checked; missing entries, wrong sizes and wrong kinds are rejected; the expected tree is accepted. "
-            "Checked every run: the real suite in a child process against mem, os and 58 single-deviation wrappers; assertion layer model = implementation.",
+            "Checked every run: the real suite in a child process against mem, os and 66 single-deviation wrappers; assertion layer model = implementation.",
             "Partial: three classes of deviants are accepted by the suite (known findings)."),
 }
 for _pid, (_t, _n) in LEVELS.items():
